@@ -78,7 +78,103 @@ def tagged_dropins_all_erased(ctx):
                       "active after it was deleted, and every rewrite leaves a stale copy behind" % Xr(a[0])[:100] if a else "?")
 
 
+def merge_writes_only_overridable_parts(ctx):
+    """Shared by C05, C07, C12 and C13: a drop-in overrides the detector groups and / or the action group of its target and nothing
+    else.  Ruleset::mergeWithDropIn writes no other member: the merged ruleset keeps the base's name, cgroup, xattr filter, log
+    silencing, post_action_delay and prekill_hook_timeout (the drop-in object was compiled with DEFAULTS for every setting its file does
+    not repeat, so copying one of them silently replaces what the base configured)."""
+    from ..callgraph import node_writes
+    P = ctx.prog
+    mg = ctx.fn1("Oomd::Engine::Ruleset::mergeWithDropIn")
+    OVERRIDABLE = ("Oomd::Engine::Ruleset::detector_groups_", "Oomd::Engine::Ruleset::action_group_")
+    other = []
+    n = 0
+    for i, nn in enumerate(mg.nodes):
+        if mg.pos_of(i) is None or nn["k"] not in ("bin", "call", "un"):
+            continue
+        if not (nn.get("op") in ("=", "+=", "-=", "|=", "&=", "++", "--") or nn.get("cname") in ("swap", "reset", "clear", "assign", "emplace", "push_back", "emplace_back")):
+            continue
+        for t in node_writes(mg, i):
+            if t.startswith("F:Oomd::Engine::Ruleset::"):
+                n += 1
+                # only writes to THIS ruleset's members count (the drop-in object is consumed)
+                tgt = nn.get("l", nn.get("recv", -1))
+                tt = mg.text(tgt) if isinstance(tgt, int) and tgt >= 0 else ""
+                if tt.startswith("ruleset") or "ruleset->" in tt.split("=")[0]:
+                    continue
+                if t[2:] not in OVERRIDABLE:
+                    other.append((i, t[2:].split("::")[-1]))
+    ctx.counters["merge_member_writes"] = n
+    ctx.check(not other, "merge:writes-only-overridable-parts", "who-may-write (field set)", mg.loc(other[0][0]) if other else mg.loc(),
+              "mergeWithDropIn writes detector_groups_ / action_group_ only",
+              "mergeWithDropIn also writes %s: the drop-in ruleset object carries the compiler's default for every setting its file does not repeat, "
+              "so the value the base ruleset was configured with is silently replaced" % ", ".join(sorted({x for _, x in other})))
+
+
+def dropins_leave_only_through_remove(ctx):
+    """A drop-in ruleset leaves a base's list only in Engine::removeDropInConfig, where every erased entry is also un-targeted and
+    un-counted.  Any other erase / pop / clear of a `dropins` list (a 'defensive' replacement of a same-tag entry on add, a trim, ...)
+    drops an entry without the paired markDropInUntargeted() and stat decrement: the base stays disabled after the tag is removed and
+    oomd.dropin.added drifts."""
+    P = ctx.prog
+    SHRINK = ("erase", "pop_back", "pop_front", "clear", "resize", "remove_if", "erase_if", "assign", "swap")
+    n = 0
+    for f in sorted(P.fns.values(), key=lambda x: x.usr):
+        if not f.file.startswith("oomd/engine/") or f.file.endswith("Test.cpp"):
+            continue
+        owner = f
+        while owner.kind == "lambda" and owner.d.get("parentfn") in P.fns:
+            owner = P.fns[owner.d["parentfn"]]
+        for i in f.calls():
+            nd = f.nodes[i]
+            nm = nd.get("cname") or ""
+            if nm not in SHRINK:
+                continue
+            tgt = f.text(nd["recv"]) if "recv" in nd else (f.text(nd["args"][0]) if nd.get("args") else "")
+            if not re.search(r"(\.|->)dropins$", tgt.rstrip(")")) and not re.search(r"(\.|->)dropins\b", tgt):
+                continue
+            if nm == "remove_if" and "recv" not in nd:
+                continue        # std::remove_if only reorders; the erase that follows is what shrinks the list
+            n += 1
+            ctx.use(f)
+            ctx.check(owner.pq == "Oomd::Engine::Engine::removeDropInConfig", "dropins-leave-only-through-remove:%s@%s" % (short(owner), nm), "who-may-write (shrinking operations)", f.loc(i),
+                      "drop-ins are erased in removeDropInConfig only (with their untarget and stat decrement)",
+                      "%s shrinks a base's drop-in list with %s(): the entry goes without markDropInUntargeted() and without the oomd.dropin.added decrement - "
+                      "after the tag is removed a disable-on-drop-in base stays disabled and the count stays too high" % (owner.pq, nm))
+    ctx.counters["dropins_shrink_sites"] = n
+    ctx.floor("dropins_shrink_sites", 1, "erase of drop-in entries (removeDropInConfig)")
+
+
+def dropin_unit_holds_merged_targets(ctx):
+    """Shared by C12 and C13: every ruleset Config2::compileDropIn puts into the unit is a copy of the BASE ruleset (compiled from the base
+    IR, so it carries the base's cgroup, xattr filter, log silencing, post_action_delay and prekill_hook_timeout) into which the drop-in
+    was merged.  A ruleset compiled from the drop-in's IR alone has the defaults for every setting the drop-in file does not repeat."""
+    P = ctx.prog
+    cd = ctx.fn1("Oomd::Config2::compileDropIn")
+    pushes = [i for i in cd.calls("emplace_back", "push_back") if re.search(r"(\.|->)rulesets$", cd.text(cd.nodes[i].get("recv", -1)))]
+    ctx.counters["dropin_unit_pushes"] = len(pushes)
+    ctx.floor("dropin_unit_pushes", 1, "insertion into the unit's rulesets in compileDropIn")
+    mg = cd.calls("Ruleset::mergeWithDropIn")
+    X = Expander(P, cd)
+    for i in pushes:
+        a0 = cd.nodes[i]["args"][0] if cd.nodes[i].get("args") else None
+        rr = cd.root_ref(a0) if a0 is not None else None
+        name = cd.nodes[rr].get("name") if rr is not None and rr >= 0 and cd.nodes[rr]["k"] == "ref" else None
+        recv_ok = [m for m in mg if name and cd.nodes[cd.root_ref(cd.nodes[m]["recv"])].get("name") == name]
+        fl = Flow(P, cd, events={m: [("set", "merged")] for m in recv_ok}, cg=ctx.cg)
+        init, v = local_init(cd, name, must=False) if name else (None, None)
+        from_base = v is not None and init is not None and init >= 0 and "compileRuleset(" in X(init) and "param:root" in X(init) or \
+            any("compileRuleset(" in X(write_rhs(cd, w)) and "param:root" in X(write_rhs(cd, w)) for w in local_writes(cd, name, must=False)) if name else False
+        ctx.check(bool(recv_ok) and fl.must(i, "merged") and from_base, "dropin:unit-holds-merged-base-copies", "provenance + must_precede", cd.loc(i),
+                  "what enters the unit is a compile of the base ruleset into which the drop-in was merged",
+                  "compileDropIn puts '%s' into the unit without it being a copy of the base ruleset that went through mergeWithDropIn(): the ruleset "
+                  "runs with the compiler's defaults for every ruleset-level setting the drop-in file does not repeat (post_action_delay 15 s, "
+                  "prekill_hook_timeout 5 s, no cgroup / xattr filter / log silencing)" % (cd.text(a0)[:60] if a0 is not None else "?"))
+
+
 def run(ctx):
+    dropin_unit_holds_merged_targets(ctx)
+    dropins_leave_only_through_remove(ctx)
     from .C07 import engine_fire_rule
     engine_fire_rule(ctx)
     from .C02 import disabled_does_nothing
@@ -321,6 +417,7 @@ def run(ctx):
         ctx.check(a[0] == "tag", "addConfig:same-tag", "provenance", add.loc(i), "each ruleset is tagged with the unit's tag", "tagged " + a[0])
 
     # ------------------------------------------------ mergeWithDropIn
+    merge_writes_only_overridable_parts(ctx)
     mg = ctx.fn1("Oomd::Engine::Ruleset::mergeWithDropIn")
     fm = Flow(P, mg, cg=ctx.cg)
     for fld, flag in (("detector_groups_", "detectorgroups_dropin_enabled_"), ("action_group_", "actiongroup_dropin_enabled_")):
